@@ -380,7 +380,9 @@ class DynEngine(Engine):
         except Exception as e:  # pylint: disable=broad-except
           obs.append(T('Err', type(e).__name__))
       store, refs = [], []
-      for (s, q), d in cfg._CONFIG.items():  # pylint: disable=protected-access
+      # entries in key order: the position of an entry in the store dict is not part of any property (a re-registered
+      # class re-inserts the entries of its methods)
+      for (s, q), d in sorted(cfg._CONFIG.items(), key=lambda kv: kv[0]):  # pylint: disable=protected-access
         ps = []
         for p, v in d.items():
           if isinstance(v, cfg._UnknownConfigurableReference):  # pylint: disable=protected-access
